@@ -1615,14 +1615,51 @@ func (e *Engine) lookup(s *State, fr *Frame, x *ssa.Lookup) []*State {
 			if eq == TFalse {
 				continue
 			}
-			outs = append(outs, Outcome{Cond: And(miss, eq), Ret: mkRet(en.V, true)})
+			if en.Present == nil {
+				outs = append(outs, Outcome{Cond: And(miss, eq), Ret: mkRet(en.V, true)})
+			} else {
+				outs = append(outs, Outcome{Cond: And(miss, eq, en.Present), Ret: mkRet(en.V, true)})
+				outs = append(outs, Outcome{Cond: And(miss, eq, Not(en.Present)), Ret: mkRet(zeroValue(vt), false)})
+			}
 			miss = And(miss, Not(eq))
 			if eq == TTrue {
 				break
 			}
 		}
 		if miss != TFalse {
-			outs = append(outs, Outcome{Cond: miss, Ret: mkRet(zeroValue(vt), false)})
+			if mo.Open {
+				// materialise the unknown entry at this key
+				var present *Term
+				var val Value
+				shapeCond := TTrue
+				kt, kIsStr := key.(*Term)
+				if mo.Src != nil && kIsStr && kt.Sort == SStr {
+					// decoded from text: the content is a function of the text and the key
+					present = App("jsonhas", mo.Src, kt)
+					val = App("jsonval", mo.Src, kt)
+				} else {
+					present = FreshVar(mo.Tag+".has", SBool)
+					shapes := e.freshOfType(s, vt, mo.Tag+".val", 0)
+					if len(shapes) != 1 {
+						throwf("open map with multi-shape values")
+					}
+					val = e.thaw(s, shapes[0].val)
+					shapeCond = shapes[0].cond
+				}
+				obj := b.Obj
+				rec := func(st *State) {
+					cur := st.load(&Ptr{Obj: obj}).(*MapObj)
+					ne := append(append([]MapEntry(nil), cur.E...), MapEntry{key, val, present})
+					st.hset(obj, &MapObj{E: ne, Open: true, Tag: cur.Tag, Src: cur.Src})
+					if kt, ok := key.(*Term); ok {
+						st.W.Nondet = append(st.W.Nondet, NondetEntry{Tag: mo.Tag + ".key", T: kt, Kind: "mapkey"})
+					}
+				}
+				outs = append(outs, Outcome{Cond: And(miss, shapeCond, present), Do: rec, Ret: mkRet(val, true)})
+				outs = append(outs, Outcome{Cond: And(miss, Not(present)), Do: rec, Ret: mkRet(zeroValue(vt), false)})
+			} else {
+				outs = append(outs, Outcome{Cond: miss, Ret: mkRet(zeroValue(vt), false)})
+			}
 		}
 		// merge scalar outcomes into one ite when all results are terms (no fork)
 		if !x.CommaOk {
@@ -1672,8 +1709,8 @@ func (e *Engine) mapUpdate(s *State, fr *Frame, x *ssa.MapUpdate) []*State {
 		outs = append(outs, Outcome{Cond: And(miss, eq), Do: func(st *State) {
 			cur := st.load(&Ptr{Obj: m.Obj}).(*MapObj)
 			ne := append([]MapEntry(nil), cur.E...)
-			ne[ii] = MapEntry{cur.E[ii].K, val}
-			st.hset(m.Obj, &MapObj{ne})
+			ne[ii] = MapEntry{cur.E[ii].K, val, nil}
+			st.hset(m.Obj, &MapObj{E: ne, Open: cur.Open, Tag: cur.Tag, Src: cur.Src})
 		}})
 		miss = And(miss, Not(eq))
 		if eq == TTrue {
@@ -1683,8 +1720,8 @@ func (e *Engine) mapUpdate(s *State, fr *Frame, x *ssa.MapUpdate) []*State {
 	if miss != TFalse {
 		outs = append(outs, Outcome{Cond: miss, Do: func(st *State) {
 			cur := st.load(&Ptr{Obj: m.Obj}).(*MapObj)
-			ne := append(append([]MapEntry(nil), cur.E...), MapEntry{key, val})
-			st.hset(m.Obj, &MapObj{ne})
+			ne := append(append([]MapEntry(nil), cur.E...), MapEntry{key, val, nil})
+			st.hset(m.Obj, &MapObj{E: ne, Open: cur.Open, Tag: cur.Tag, Src: cur.Src})
 		}})
 	}
 	return e.applyOutcomes(s, fr, nil, outs)
@@ -1705,7 +1742,16 @@ func (e *Engine) rangeInstr(s *State, fr *Frame, x *ssa.Range) []*State {
 	case *MapRef:
 		var ents []MapEntry
 		if !b.Nil {
-			ents = s.load(&Ptr{Obj: b.Obj}).(*MapObj).E
+			mo := s.load(&Ptr{Obj: b.Obj}).(*MapObj)
+			if mo.Open {
+				throwf("range over a map with arbitrary content")
+			}
+			for _, en := range mo.E {
+				if en.Present != nil {
+					throwf("range over a map with conditionally present entries")
+				}
+			}
+			ents = mo.E
 		}
 		// Go map iteration order is unspecified: the engine may explore permutations (C06)
 		perms := e.mapOrders(s, ents)
